@@ -105,13 +105,23 @@ def make_cer(rc=None, fc=None, hints=None, packages=None):
     )
 
 
-def set_cer(cer):
-    _cer_var.set(_schema.dump(cer))
+_shared_body = {}
 
 
-def set_cer_values(rc=None, fc=None, hints=None, packages=None):
+def set_cer(cer, inplace=False):
+    """inplace: the SAME body object is handed to the evaluators again, updated in place (evaluatable data may change between - not during -
+    evaluation runs; an evaluator that remembers a deserialised result per body object would answer from the previous assignment)"""
+    if inplace:
+        _shared_body.clear()
+        _shared_body.update(_schema.dump(cer))
+        _cer_var.set(_shared_body)
+    else:
+        _cer_var.set(_schema.dump(cer))
+
+
+def set_cer_values(rc=None, fc=None, hints=None, packages=None, inplace=False):
     cer = make_cer(rc, fc, hints, packages)
-    set_cer(cer)
+    set_cer(cer, inplace=inplace)
     return cer
 
 
